@@ -9,8 +9,10 @@ pub mod c09;
 pub mod c10;
 pub mod c11;
 pub mod c12;
+pub mod c14;
 pub mod c16;
 pub mod c17;
+pub mod c19;
 pub mod c20;
 pub mod l1;
 pub mod c04;
@@ -32,8 +34,10 @@ pub fn get(id: &str, tier: Tier) -> Option<Property> {
         "C10" => c10::property(tier),
         "C11" => c11::property(tier),
         "C12" => c12::property(tier),
+        "C14" => c14::property(tier),
         "C16" => c16::property(tier),
         "C17" => c17::property(tier),
+        "C19" => c19::property(tier),
         "C20" => c20::property(tier),
         _ => return None,
     })
